@@ -283,9 +283,33 @@ pub fn run_workers(prop: &str, tier: Tier, seed: u64, nshards: usize, budget_s: 
     let mut report = Report::default();
     let mut crashed = vec![];
     // read all outputs concurrently to avoid pipe stalls
+    let limit = Duration::from_secs(budget_s * 3 + 60);
     let handles: Vec<_> = children
         .into_iter()
-        .map(|(shard, child)| std::thread::spawn(move || (shard, child.wait_with_output())))
+        .map(|(shard, child)| {
+            std::thread::spawn(move || {
+                // watchdog: a worker stuck inside the subject (a loop that passes no hook) is killed
+                let pid = child.id();
+                let done = std::sync::Arc::new(std::sync::atomic::AtomicBool::new(false));
+                let d2 = done.clone();
+                let w = std::thread::spawn(move || {
+                    let t0 = Instant::now();
+                    while !d2.load(std::sync::atomic::Ordering::Relaxed) {
+                        if t0.elapsed() > limit {
+                            unsafe {
+                                libc::kill(pid as i32, libc::SIGKILL);
+                            }
+                            return;
+                        }
+                        std::thread::sleep(Duration::from_millis(200));
+                    }
+                });
+                let out = child.wait_with_output();
+                done.store(true, std::sync::atomic::Ordering::Relaxed);
+                let _ = w.join();
+                (shard, out)
+            })
+        })
         .collect();
     for h in handles {
         let (shard, out) = h.join().expect("join");
@@ -363,27 +387,47 @@ pub fn replay_subprocess(path: &std::path::Path, timeout: Duration) -> (i32, Str
         .stderr(Stdio::piped())
         .spawn()
         .expect("spawn replay");
+    // drain both pipes while waiting, so that a talkative replay cannot block on a full pipe
+    let mut so = child.stdout.take().unwrap();
+    let mut se = child.stderr.take().unwrap();
+    let t_out = std::thread::spawn(move || {
+        let mut s = String::new();
+        let _ = std::io::Read::read_to_string(&mut so, &mut s);
+        s
+    });
+    let t_err = std::thread::spawn(move || {
+        let mut s = String::new();
+        let _ = std::io::Read::read_to_string(&mut se, &mut s);
+        s
+    });
     let t0 = Instant::now();
-    loop {
+    let mut timed_out = false;
+    let status = loop {
         match child.try_wait() {
-            Ok(Some(_)) => break,
+            Ok(Some(st)) => break Some(st),
             Ok(None) => {
                 if t0.elapsed() > timeout {
                     let _ = child.kill();
-                    let _ = child.wait();
-                    return (-999, "timeout".into());
+                    timed_out = true;
+                    break child.wait().ok();
                 }
                 std::thread::sleep(Duration::from_millis(5));
             }
-            Err(_) => break,
+            Err(_) => break None,
         }
-    }
-    let out = child.wait_with_output().expect("wait");
-    use std::os::unix::process::ExitStatusExt;
-    let code = out.status.code().unwrap_or_else(|| -(out.status.signal().unwrap_or(0)));
-    let mut s = String::from_utf8_lossy(&out.stdout).to_string();
-    s.push_str(&String::from_utf8_lossy(&out.stderr));
+    };
+    let mut s = t_out.join().unwrap_or_default();
+    s.push_str(&t_err.join().unwrap_or_default());
     let tail: String = s.lines().rev().take(4).collect::<Vec<_>>().into_iter().rev().collect::<Vec<_>>().join(" | ");
+    let tail: String = tail.chars().take(600).collect();
+    if timed_out {
+        return (-999, format!("timeout after {:?} | {}", timeout, tail));
+    }
+    use std::os::unix::process::ExitStatusExt;
+    let code = match status {
+        Some(st) => st.code().unwrap_or_else(|| -(st.signal().unwrap_or(0))),
+        None => -998,
+    };
     (code, tail)
 }
 
